@@ -233,6 +233,12 @@ def st_class_case(draw):
                 c["members"].append({"name": "ab", "kind": "method", "async": False, "params": ["x", "y"],
                                      "defaults": {"y": "None"}, "decos": [], "body": {"ret": "obj"}})
         case["abstract"] = True
+    # constructors that fail: the exception of the body (also of a nested super().__init__()) reaches the caller as it is
+    for c in prog["classes"]:
+        for m in c["members"]:
+            if m["kind"] == "init" and draw(st.integers(0, 3)) == 0:
+                m["body"] = {"raise": draw(st.sampled_from(["KeyError", "KeyError", "ProgError", "TypeError", "AttributeError"]))}
+                case["raising_init"] = True
     # all contracts hold
     for op in case["ops"]:
         op["truth"] = {k: ["T"] for k in (op.get("truth") or {})}
@@ -259,6 +265,26 @@ def st_class_case(draw):
             case["fuel"] = draw(st.integers(1, 3))
     case["part"] = "B"
     return case
+
+
+def directed_class_cases():
+    """A constructor body that raises, reached directly and through super().__init__() (first / last), for every
+    exception type of the pool that the library handles somewhere itself; the classes carry a satisfied invariant."""
+    def init(sup, body):
+        return {"name": "__init__", "kind": "init", "async": False, "params": ["x", "y"], "defaults": {"x": "None", "y": "None"},
+                "decos": [], "body": body, "super": sup}
+
+    inv = {"cid": 1, "on": "CALL", "lam": False, "selfarg": True, "err": {"form": "default"}}
+    for exc in ("KeyError", "TypeError", "AttributeError", "ValueError", "ProgError", "KeyboardInterrupt"):
+        for sup in ("first", "last"):
+            prog = {"funcs": [], "classes": [
+                {"name": "K0", "bases": [], "root": "DBC", "shape": "plain", "invs": [dict(inv)],
+                 "members": [init("absent", {"raise": exc})]},
+                {"name": "K1", "bases": [0], "root": "DBC", "shape": "plain", "invs": [],
+                 "members": [init(sup, {"ret": "None"})]}]}
+            yield {"part": "B", "program": prog, "directed": "raising-init/%s/%s" % (exc, sup),
+                   "ops": [{"op": "new", "cls": 1, "k": 0, "args": {}, "truth": {1: ["T"]}},
+                           {"op": "new", "cls": 0, "k": 1, "args": {}, "truth": {1: ["T"]}}]}
 
 
 def body_view(log):
@@ -316,6 +342,8 @@ def check_class(ctx, case):
         ctx.count("classes:with-abstract-member")
     if case.get("scripts"):
         ctx.count("classes:bodies-calling-methods-of-the-same-object")
+    if case.get("raising_init"):
+        ctx.count("classes:a-constructor-body-raises")
     ctx.case(["B", prog, [{k: v for k, v in o.items() if k != "truth"} for o in ops]], nt, sample=lambda: {
         "classes": [(c["name"], c["bases"], c.get("shape"), [m["name"] + ":" + m["kind"] for m in c["members"]]) for c in prog["classes"]],
         "ops": [{k: v for k, v in o.items() if k != "truth"} for o in ops][:8]})
@@ -345,6 +373,8 @@ def run(ctx, tier, seed, shard, nshards):
     core.run_hypothesis(test_b, seed + 1, n // 2)
     if shard == 0:
         check_class(ctx, dict(D23_CASE))
+        for case in directed_class_cases():
+            check_class(ctx, case)
 
 
 def replay(ctx, case):
